@@ -35,6 +35,18 @@ CHECKS = {
             "every lifecycle call is checked against the legal transition relation and the cancellation closure (least fixpoint computed by the monitor) must equal the set of tasks reported CANCELLED.", "3/C06"),
  "C07": sim("Every feasible path (every branch draw is a solver choice among the non-zero-weight children) of whole runs over 2/3-way, uneven, nested and serial conditionals, incl. resolution at submission through the real JobGraph._generate_task_graph; "
             "at the end exactly one child per completed conditional was released, untaken branches up to the matching join are CANCELLED and never started, everything else completed exactly once.", "3/C07"),
+ "C10": dict(level="model_checking", design="3/C10", engine="pysym+mip2smt", note=PYSYM_NOTE + " Planner part: gurobipy.Model subclass / docplex / z3.Optimize capture inside the real schedule(); translation of linear, bilinear, indicator and AND constraints to z3 (anything else aborts); read-back relation validated on every instance against the real get_placements().",
+   text="Greedy policies: every feasible path of the real EDF/FIFO/LSF schedule() on API-built mixed states (released + running + scheduled-for-later tasks, heterogeneous pools, symbolic numerics): one decision per offered task, existing pool, own strategy, time >= now/release, first-fit replay within capacity, live state untouched. "
+        "Planners (ILP, TetriSched-Gurobi/CPLEX, Z3): schedule() must return; over ALL solutions of the captured model z3 proves start >= now/release and no worker over capacity at any start instant; returned plan re-checked concretely.",
+   technique="symbolic execution of real schedule() (pysym) + all-solutions queries over the captured MIP model (mip2smt)"),
+ "C11": dict(level="translation_validation", design="3/C11", engine="mip2smt", note="Trusted base: z3; gurobipy (restricted licence) / z3 as used by the schedulers; the translator vlib/mip2smt.py (linear, bilinear, indicator, AND; anything else aborts); read-back relation taken from the scheduler's own variable tables and validated per instance by fixing the real model to a z3 solution and calling the real get_placements(). Instance numerics are concrete.",
+   text="For every instance of a bounded family (DAGs <=3/4 tasks offered wholly or behind a RUNNING / SCHEDULED / COMPLETED prefix, 1-2 workers, 1-2 strategies) the model built by the real ILP / TetriSched-Gurobi / Z3 scheduler is captured and, for every (child, predecessor) pair, "
+        "z3 proves that NO feasible solution places the child without / before its predecessor (start(child) >= start(pred)+runtime(chosen), or >= expected finish of a running predecessor).",
+   technique="all-solutions SMT queries over the MIP/SMT model captured from the real scheduler (translation validated per instance)"),
+ "C12": dict(level="model_checking", design="3/C12", engine="pysym+mip2smt", note=PYSYM_NOTE + " Planner part as for C11.",
+   text="Admission: every feasible path of the real EDF / FIFO schedule() and of TetriSched-CPLEX's admission block with symbolic now/release/deadline/runtimes: hopeless <=> CANCEL, never PLACE, boundary admitted. "
+        "Planners (ILP task-by-task, TetriSched-Gurobi, TetriSched-CPLEX): over ALL solutions of the captured model no placement cell finishes after the deadline; hopeless tasks are unplaced in every solution.",
+   technique="symbolic execution of real schedule() (pysym) + all-solutions queries over the captured MIP model (mip2smt)"),
  "C13": dict(level="model_checking", design="3/C13",
    text="One real schedule() call of EDF/FIFO/LSF on API-constructed states: 2-3 (quick) / 4 (thorough) released tasks with symbolic deadlines (mixed units), releases, runtimes, demands, 1-3 single-worker pools with symbolic capacity and an optional running task; "
         "all orderings/ties are paths; for every unplaced task, strategy and pool z3 proves the strategy does not fit what the higher-or-equal-priority placements leave.",
@@ -61,7 +73,9 @@ m = {
            "baseline_off_cmd": "cd /repo && /venv/bin/python -m pytest -ra -q -p no:cacheprovider --timeout=900 --continue-on-collection-errors",
            "source_commits": [], "add_only": True},
  "engines": [
-   {"name": "pysym", "path": "vlib/pysym.py", "serves_properties": sorted(k for k, v in CHECKS.items() if v.get("engine", "pysym") == "pysym"),
+   {"name": "mip2smt", "path": "vlib/mip2smt.py", "serves_properties": sorted(k for k, v in CHECKS.items() if "mip2smt" in v.get("engine", "pysym")),
+    "kind_free_text": "captures the Gurobi / CPLEX / z3 model built by the real scheduler inside schedule(), translates it to z3 and asserts properties over all of its solutions; counterexamples are injected back into the real model and read back with the real get_placements()"},
+   {"name": "pysym", "path": "vlib/pysym.py", "serves_properties": sorted(k for k, v in CHECKS.items() if "pysym" in v.get("engine", "pysym")),
     "kind_free_text": "path-exploring symbolic executor for the repository's real Python functions; SNum/SBool proxies carry linear forms over z3 variables, z3 decides every branch and obligation; DFS with re-execution; process-parallel over worlds and path-prefix subtrees"},
  ],
  "checks": [],
